@@ -69,7 +69,9 @@ let () =
   List.iter2 (fun case impl_line ->
     try
       match split_ws case with
-      | "ev" :: lvl :: k :: toks ->
+      | ("ev" | "file") :: lvl :: k :: toks ->
+        (* file: the line as the file log writer wrote it.  Long lines (the full RFC 8259 oracle is quadratic in the
+           extracted model) are compared with the model's line, which c17_jsonl_roundtrip proves valid *)
         let lvl = level_of_tok lvl and k = int_of_string k in
         (match split_ws impl_line with
          | "panic" :: _ -> Printf.printf "nopanic | oracle=fail@panic\n"
@@ -86,6 +88,9 @@ let () =
               let verdict =
                 if not hyp then "oracle=fail@hypothesis-float_text_grammar"
                 else if not (tags_wf tags) then "oracle=fail@case-not-wf"
+                else if List.length impl_bytes > 20000 then
+                  (if tok_of_bytes impl_bytes = model_line lvl tags impl_bytes
+                   then "oracle=ok" else "oracle=fail@long-line-differs-from-the-serialisation")
                 else if oracle_c17_utf8 lvl tags impl_bytes then "oracle=ok" else "oracle=fail@line" in
               Printf.printf "F%d%s L %s | %s\n" m (String.concat "" (List.map (fun t -> " " ^ t) ftoks))
                 (model_line lvl tags impl_bytes) verdict
